@@ -19,6 +19,7 @@ import (
 	"fmt"
 	"net/http"
 	"net/http/httptest"
+	"os"
 	"strconv"
 	"strings"
 	"time"
@@ -44,6 +45,22 @@ var childOutFlag = flag.String("childout", "", "child: where the recorded cases 
 var childSink *json.Encoder
 var skipped int
 var env *bbsenv.Env
+
+const sysopPerms = ptttype.PERM_ACCOUNTS | ptttype.PERM_SYSOP | ptttype.PERM_ACCTREG
+
+// grantSysops: the fixture's users hold none of PERM_SYSOP / PERM_ACCOUNTS / PERM_ACCTREG (SYSOP included);
+// the routes that let such users act for others are only exercised when some do.
+func grantSysops() {
+	for u, bit := range map[string]ptttype.PERM{"SYSOP": ptttype.PERM_SYSOP, "Kahou": ptttype.PERM_ACCOUNTS, "Kahou2": ptttype.PERM_ACCTREG} {
+		usr, err := bbs.GetUser(bbs.UUserID(u))
+		if err == nil {
+			_, err = bbs.SetUserPerm(bbs.UUserID(u), bbs.UUserID(u), usr.Userlevel|bit)
+		}
+		if err != nil || !bbs.IsSysop(bbs.UUserID(u), sysopPerms) {
+			run.Note(fmt.Sprintf("could not make %s a privileged user (%v): the sysop branch of the e-mail routes is not exercised", u, err))
+		}
+	}
+}
 
 type tcase struct {
 	op string
@@ -74,6 +91,7 @@ func newRouter() *gin.Engine {
 	r.POST(api.REFRESH_R, api.RefreshWrapper)
 	r.POST(api.GET_TOKEN_INFO_R, api.GetTokenInfoWrapper)
 	r.POST(api.GET_REFRESH_TOKEN_INFO_R, api.GetRefreshTokenInfoWrapper)
+	r.POST(api.GET_EMAIL_TOKEN_INFO_R, api.GetEmailTokenInfoWrapper)
 	return r
 }
 
@@ -425,6 +443,54 @@ func execCase(c tcase, now int64) (o outcome) {
 		}
 		judgeRefresh(&o, nf, second, hvw, rraw, rv, pcli, b, res, av, nv, now)
 
+	case "emailinfo":
+		if env == nil {
+			o.skip = true
+			return
+		}
+		hraw := b.build(c.a[1])
+		braw := b.build(c.a[2])
+		ctx := unhx0(c.a[3])
+		hv, has := headerValue(c.a[0], hraw)
+		nf, second := fieldsOf(hv)
+		hvw := lookRaw(second)
+		if nf != 2 {
+			hvw = lookRaw(hraw)
+		}
+		bv := lookRaw(braw)
+		if hvw.class == 'U' || bv.class == 'U' {
+			o.skip = true
+			return
+		}
+		// who is asking, by the statement: the subject of a genuine access token, otherwise the guest
+		requester := api.GUEST
+		if nf == 2 && genuine('a', hvw, "", now) {
+			requester = hvw.claims[1].s
+		}
+		sysop := bbs.IsSysop(bbs.UUserID(requester), sysopPerms)
+		o.line = fmt.Sprintf("emailinfo %d@%s %s@%s %s@%s %s %d", nf, c.a[0], hvw.word(now), c.a[1], bv.word(now), c.a[2], c.a[3], b2i(sysop))
+		var res httpRes
+		o.impl = hx.CallSync(func() string {
+			res = post(api.GET_EMAIL_TOKEN_INFO_R, hv, has, true, map[string]string{"token": braw, "context": ctx})
+			if res.code != 200 {
+				return res.errLine()
+			}
+			return "200 " + identLine(jstr(res.body["user_id"]), int(jnum(res.body["expire"])), jstr(res.body["client_info"]), now) + " eml=" + hx0(jstr(res.body["email"]))
+		})
+		o.label = fmt.Sprintf("emailinfo:%d:sysop%d:%s/%s", res.code, b2i(sysop), why(hvw), why(bv))
+		o.nontrivial = bv.class == 'T'
+		if o.impl == "PANIC" {
+			o.fail("crash:emailinfo", "panic: "+hx.LastPanic)
+			return
+		}
+		if res.code == 200 {
+			user := jstr(res.body["user_id"])
+			judgeVerify(&o, c.op, 'e', braw, bv, b, true, user, jstr(res.body["email"]), ctx, true, now)
+			if user != requester && !sysop {
+				o.fail("auth:wrong-user", fmt.Sprintf("GetEmailTokenInfo told %q about the e-mail token of %q", requester, user))
+			}
+		}
+
 	case "chgemail", "setidemail":
 		if env == nil {
 			o.skip = true
@@ -458,8 +524,24 @@ func execCase(c tcase, now int64) (o outcome) {
 			})
 		} else {
 			ctx = string(api.CONTEXT_SET_ID_EMAIL)
-			isSysop := bbs.IsSysop(bbs.UUserID(uu), ptttype.PERM_ACCOUNTS|ptttype.PERM_SYSOP|ptttype.PERM_ACCTREG)
+			isSysop := bbs.IsSysop(bbs.UUserID(uu), sysopPerms)
 			sysopOK = isSysop
+			// the target starts without the "id e-mail verified" bit, so that gaining it is visible
+			if u, err := bbs.GetUser(bbs.UUserID(q)); err == nil && u.UserLevel2&ptttype.PERM2_ID_EMAIL != 0 {
+				_, _ = bbs.SetIDEmail(bbs.UUserID(q), false)
+			}
+			defer func() {
+				// P̂ on the stored state: the target may be marked verified only through a genuine id-e-mail token OF THE TARGET
+				u, err := bbs.GetUser(bbs.UUserID(q))
+				if err != nil || u.UserLevel2&ptttype.PERM2_ID_EMAIL == 0 {
+					return
+				}
+				o.label += ":marked"
+				sub, _ := strClaim(v.claims[1])
+				if !genuineNow('e', v, ctx, now) || v.claims[1].kind != 's' || sub != q {
+					o.fail("auth:wrong-user", fmt.Sprintf("SetIDEmail by %q marked %q as id-e-mail verified with the token [%s] (subject %s)", uu, q, v.word(now), v.claims[1].word(now)))
+				}
+			}()
 			o.line = fmt.Sprintf("setidemail %s %s %s %d", c.a[0], c.a[1], tokw, b2i(isSysop))
 			o.impl = hx.CallSync(func() string {
 				_, err := api.SetIDEmail("127.0.0.1", bbs.UUserID(uu), &api.SetIDEmailParams{IsSet: true, Jwt: raw}, &api.SetIDEmailPath{UserID: bbs.UUserID(q)}, nil)
@@ -561,6 +643,8 @@ func parseOp(line string) (tcase, bool) {
 		return tc(w[0], w[1], rec(w[2]), rec(w[3])), true
 	case (w[0] == "tokinfo" || w[0] == "rtokinfo") && len(w) == 4:
 		return tc(w[0], rec(w[1]), rec(w[2]), rec(w[3])), true
+	case w[0] == "emailinfo" && len(w) == 6:
+		return tc("emailinfo", rec(w[1]), rec(w[2]), rec(w[3]), w[4]), true
 	case w[0] == "chgemail" && len(w) == 4:
 		return tc("chgemail", w[1], w[2], rec(w[3])), true
 	case w[0] == "setidemail" && len(w) == 5:
@@ -581,6 +665,10 @@ func main() {
 	if e, err := bbsenv.New(bbsenv.Options{}); err == nil {
 		env = e
 		defer env.Close()
+		grantSysops()
+		// SetIDEmail only marks a user when the mailbox passes etc/whitemail: allow the domain the cases use
+		_ = os.MkdirAll(env.Path("etc"), 0o755)
+		_ = os.WriteFile(env.Path("etc", "whitemail"), []byte("Dptt.test\n"), 0o644)
 	} else {
 		run.Note("no private BBS environment (" + err.Error() + "): chgemail/setidemail cases are skipped")
 	}
